@@ -219,3 +219,26 @@ def loops_with_sleep(e, funcs=None):
                         out.append((f, n))
                         break
     return out
+
+
+def body_as_expr(stmts):
+    """The value a predicate function returns, as ONE expression: a body made of local assignments and a chain of
+    `if T: return X` guard clauses ending in `return Y` is `X if T else (...)`.  None if the body has another shape
+    (loops, returns under try, an if arm that may fall through after side effects...)."""
+    for i, s in enumerate(stmts):
+        if isinstance(s, ast.Return):
+            return s.value if s.value is not None else ast.Constant(value=None)
+        if isinstance(s, ast.If):
+            b = body_as_expr(s.body)
+            if b is None:
+                if any(isinstance(x, ast.Return) for y in s.body for x in ast.walk(y)):
+                    return None
+                continue            # an arm without return: local set-up only
+            o = body_as_expr(list(s.orelse) + list(stmts[i + 1:]))
+            if o is None:
+                return None
+            return ast.copy_location(ast.IfExp(test=s.test, body=b, orelse=o), s)
+        if isinstance(s, (ast.Assign, ast.AnnAssign, ast.Pass)) or (isinstance(s, ast.Expr) and isinstance(s.value, ast.Constant)):
+            continue
+        return None
+    return None
